@@ -14,9 +14,15 @@ def line(entry, stream, full=True):
 class BigData:
     """Expected output of a 16 MiB boundary stream: kept as its printed form H<len>:<fnv64> (computed once)."""
 
+    _shown = {}
+
     def __init__(self, data):
+        import zlib
         self.n = len(data)
-        self.shown = show_bytes(data, False)
+        key = (len(data), zlib.crc32(data), bytes(data[:16]))
+        if key not in BigData._shown:
+            BigData._shown[key] = show_bytes(data, False)       # FNV-64 of 16 MiB in pure Python: seconds
+        self.shown = BigData._shown[key]
 
     def __len__(self):
         return self.n
@@ -137,8 +143,12 @@ class C11(LZCheckMixin, PropertyCheck):
         # --- the 16 MiB boundary of the LZ11 size field: 0xFFFFFF is the largest size of the plain 24-bit form, 0x1000000
         #     needs the extended form (0,0,0 + 32 bit); a literal and long-form references at displacement 1
         #     (implementation + oracle only, output compared as H<len>:<fnv64>)
-        for size, ext, entry, wrap in (((1 << 24) - 1, False, "13", True), (1 << 24, True, "f13", True), ((1 << 24) - 1, True, "10", False)):
-            toks = [rng.getrandbits(8)]
+        # (seeded C11-8: the LZ10 entry rejected LZ11 streams that decode to 2^24 bytes and more - it must accept every
+        # well-formed LZ11 stream; so 2^24 and 2^24+1 go through the entries 10 / f10 as well as 13 / f13)
+        for size, ext, entry, wrap in (((1 << 24) - 1, False, "13", True), (1 << 24, True, "f13", True), ((1 << 24) - 1, True, "10", False),
+                                       (1 << 24, True, "10", False), ((1 << 24) + 1, True, "10", False), ((1 << 24) + 1, True, "f10", False),
+                                       ((1 << 24) + 1, True, "13", False), ((1 << 24) + 1, True, "f13", True)):
+            toks = [size & 0xFF ^ 0x5A]              # (same literal for the same size: the 16 MiB expectation is computed once)
             left = size - 1
             while left > 0:
                 ln = min(left, 65808)
